@@ -40,12 +40,14 @@ def match_starts(pat, wd):
 PENDING = []       # inconsistencies met by `evaluate`; drained into failures by Ctx.case / Ctx.drain
 
 
-def evaluate(cls, wd, feats=()):
+def evaluate(cls, wd, feats=(), topology=None):
     """(verdict, up, down, target, placeholder, target-features) on the real code; verdict in
     valid / invalid / illegal / exc:<name>.  The same entity object is then asked again: its answers must not
     drift (an object that says invalid and then hands out overhangs, or whose second target differs from its
     first, is recorded in PENDING and becomes a failure of the case being evaluated)."""
     rec = impl.mk_record(CRec(0, wd, list(feats), []))
+    if topology is not None:
+        rec.annotations["topology"] = topology        # "circular" in any letter case is what GenBank files may say
     ent = cls(rec)
     try:
         ok = ent.is_valid()
